@@ -707,6 +707,8 @@ NewCall(who, api) ==
     [who |-> who, api |-> api, st |-> "issued", det |-> FALSE, res |-> NoRes,
      id |-> 0, body |-> NoBody, big |-> FALSE, et |-> "", name |-> "", events |-> {}, idc |-> "ok",
      agen |-> 0, which |-> "", feat |-> FALSE,
+     adm |-> FALSE,      \* a slow /response or /error: the headers were handled, the handler is reading the body
+     mode |-> "",        \* /response: the response-mode header ("" | "streaming" | "bad" = any other value)
      slow |-> FALSE,     \* the request's body is still on its way (the handler is reading it): no effect yet
      tdone |-> 0]        \* trace validation: time stamp of the last recorded event when the answer was computed
 
@@ -779,17 +781,37 @@ RtResponseSent(s, c, okRes) ==
 RtPostEffect(s, c) ==
     LET call == s.calls[c]
         isResp == call.api = "response"
-    IN IF call.id = 0 \/ call.id # s.srv.inv THEN Answer(s, c, Res(400, "InvalidRequestID"))
-       ELSE IF s.rt = "none" THEN Answer(s, c, Res(0, ""))
-       ELSE IF s.rt # "Running" THEN Forbidden(s, c)
-       ELSE LET s1 == [s EXCEPT !.rt = IF isResp THEN "InvResp" ELSE "InvErrResp"]
+    IN IF ~call.adm /\ (call.id = 0 \/ call.id # s.srv.inv) THEN Answer(s, c, Res(400, "InvalidRequestID"))
+       ELSE IF ~call.adm /\ s.rt = "none" THEN Answer(s, c, Res(0, ""))
+       ELSE IF ~call.adm /\ s.rt # "Running" THEN Forbidden(s, c)
+       ELSE LET s1 == IF call.adm THEN s ELSE [s EXCEPT !.rt = IF isResp THEN "InvResp" ELSE "InvErrResp"]
                 sb == SendBody(s1, call.id, call.body, call.big /\ isResp)
-            IN CASE sb[2] = "ok" -> RtResponseSent(sb[1], c, [NoRes EXCEPT !.status = 202])
+            IN \* a response-mode header other than "streaming": checked after the state transition - the caller is
+               \* answered with Runtime.InvalidResponseModeHeader (an empty payload is all a caller of the buffered
+               \* interface sees of it), the request with 400; the runtime stays
+               \* in InvocationResponse state (the response latch is not reached: the invocation then runs out of time)
+               IF isResp /\ call.mode = "bad"
+               THEN Answer(SendBody(s1, call.id, NoBody, FALSE)[1], c,
+                           Res(400, "InvalidFunctionResponseMode"))
+               ELSE
+               CASE sb[2] = "ok" -> RtResponseSent(sb[1], c, [NoRes EXCEPT !.status = 202])
                  [] sb[2] = "TooLarge" ->
                        LET sb2 == SendBody(s1, call.id, <<"err", "Function.ResponseSizeTooLarge">>, FALSE)
                        IN RtResponseSent(sb2[1], c, Res(413, "RequestEntityTooLarge"))
                  [] sb[2] \in {"InvalidInvokeID", "ResponseSent"} -> Answer(s1, c, Res(400, "InvalidRequestID"))
                  [] OTHER -> Answer(s1, c, Res(0, ""))       \* RenderInteropError panics
+
+\* a /response or /error whose body arrives slowly: the request-id middleware and the handler's state transition act
+\* when the headers are there - a refusal is decided then, and from then on the runtime is in the "response" state
+\* (a second submission is refused with 403 while the first is still uploading); the body is read afterwards
+RtPostHeaders(s, c) ==
+    LET call == s.calls[c]
+        isResp == call.api = "response"
+    IN IF call.id = 0 \/ call.id # s.srv.inv THEN Answer(s, c, Res(400, "InvalidRequestID"))
+       ELSE IF s.rt = "none" THEN Answer(s, c, Res(0, ""))
+       ELSE IF s.rt # "Running" THEN Forbidden(s, c)
+       ELSE IF isResp /\ call.mode = "bad" THEN RtPostEffect(s, c)       \* refused before the body is looked at
+       ELSE [s EXCEPT !.rt = IF isResp THEN "InvResp" ELSE "InvErrResp", !.calls[c].adm = TRUE]
 
 \* POST /runtime/init/error
 RtInitErrorEffect(s, c) ==
@@ -925,10 +947,14 @@ RouteEffect(s, c) ==
               [] OTHER -> Answer(s, c, Res(0, ""))      \* the typed calls have their own effects; not issued as "route"
 
 \* a request whose body arrives slowly: the handler has the headers (the request id passed the middleware) and is
-\* reading the body; the effect is computed when the body is complete (BodyDone) - for /error the state change that
-\* the handler makes before reading concerns the runtime object of the sender's generation only
+\* reading the body; the effect on the caller is computed when the body is complete (BodyDone); what the handler does
+\* before reading (RtPostHeaders) happens when the headers are there
 BodyDoneEn(s, c) == c \in DOMAIN s.calls /\ s.calls[c].st = "issued" /\ s.calls[c].slow
 BodyDoneDo(s, c) == [s EXCEPT !.calls[c].slow = FALSE]
+
+HeadersEn(s, c) ==
+    c \in DOMAIN s.calls /\ s.calls[c].st = "issued" /\ s.calls[c].slow /\ ~s.calls[c].adm /\ s.calls[c].api \in {"response", "error"}
+HeadersDo(s, c) == RtPostHeaders(s, c)
 
 EffectEn(s, c) ==
     /\ c \in DOMAIN s.calls /\ s.calls[c].st = "issued" /\ ~s.calls[c].slow
@@ -1001,7 +1027,7 @@ Urgent(s) ==
     \/ (\E p \in s.pcS.todo : ShutAgentExitedEn(s, p) \/ (ShutAgentKillEn(s, p) /\ p \notin s.shutAwait))
     \/ ShutAgentsJoinedEn(s) \/ ShutReapedEn(s)
     \/ (\E p \in DOMAIN s.procs : WatchRecvEn(s, p)) \/ WatchHandleEn(s) \/ WatchCancelEn(s)
-    \/ \E c \in DOMAIN s.calls : EffectEn(s, c) \/ WakeEn(s, c)
+    \/ \E c \in DOMAIN s.calls : EffectEn(s, c) \/ WakeEn(s, c) \/ HeadersEn(s, c)
 
 ----------------------------------------------------------------------------
 (* Properties of the listed claims as predicates of a state.  MC_Rapid checks them as invariants of the  *)
